@@ -380,9 +380,9 @@ pub enum Which {
 
 fn typed_run<V: Val>(ctx: &mut Ctx, which: Which, idx: u64, rng: &mut Rng, mut case: Case) {
     // boundary: the last index that still converts (u8: 256 patterns, i8: 128 patterns)
-    if which == Which::C06 && case.spec.entry == Entry::New {
+    if case.spec.entry == Entry::New {
         if let Some(maxi) = V::MAX_INDEX.filter(|&m| m <= 255) {
-            if rng.chance(1, 3) && !ctx.slow() {
+            if which == Which::C06 && rng.chance(1, 3) && !ctx.slow() {
                 let need = maxi + 1;
                 let mut k = 0u32;
                 while case.patterns.len() < need {
